@@ -8,11 +8,11 @@ package main
 // variable"; nothing is executed.
 
 import (
-	"os"
 	"fmt"
 	"go/constant"
 	"go/token"
 	"go/types"
+	"os"
 	"sort"
 	"strings"
 
